@@ -170,6 +170,7 @@ def check_c05(out, tier):
         cl.append(gen.case("c05c%d" % i, T, **cfg))
     cl += [gen.chain_case(rnd, "c05k%d" % i) for i in range(40 * k)]
     cl += [gen.fan_case(rnd, "c05f%d" % i) for i in range(40 * k)]
+    cl += [gen.or_fan_case(rnd, "c05o%d" % i) for i in range(20 * k)]
     pipeline.run_and_judge(out, cl, ["C05"], mine)
     pins = [p for p in common.load_pinned("C05") if "case" in p]
     if pins:
